@@ -41,7 +41,10 @@ def api_level(rep, tier_, rng):
                    ("*", lambda: z * w, (a * c - b * d, a * d + b * c)), ("r+", lambda: w + z, (a + c, b + d)),
                    ("r*", lambda: w * z, (a * c - b * d, a * d + b * c))]
             rnd = rng.choice(RND)
-            ops += [("fadd", lambda: mp.fadd(z, w, rounding=rnd), (a + c, b + d), rnd),
+            ops += [("fadd-rev", lambda: mp.fadd(w, z, rounding=rnd), (a + c, b + d), rnd),
+                    ("fsub-rev", lambda: mp.fsub(w, z, rounding=rnd), (c - a, d - b), rnd),
+                    ("fmul-rev", lambda: mp.fmul(w, z, rounding=rnd), (a * c - b * d, a * d + b * c), rnd),
+                    ("fadd", lambda: mp.fadd(z, w, rounding=rnd), (a + c, b + d), rnd),
                     ("fsub", lambda: mp.fsub(z, w, rounding=rnd), (a - c, b - d), rnd),
                     ("fmul", lambda: mp.fmul(z, w, rounding=rnd), (a * c - b * d, a * d + b * c), rnd)]
             m = rng.randint(0, 9)
